@@ -26,6 +26,7 @@ func init() {
 			{ID: "C10.R7", Floor: 2, Doc: "the replica list stored for a token range is built in that range's own iteration (fresh list filled by the walk from that token), never taken from a cache or an outer variable", Run: c10r7},
 			{ID: "C10.R8", Floor: 1, Doc: "NetworkTopologyStrategy: the all-racks-seen test that lets the skipped hosts in is made on the rack set that already contains the current host's rack", Run: c10r8},
 			{ID: "C10.R9", Floor: 4, Doc: "ring lookups: binary search over the whole ring, result used as found or wrapped to index 0", Run: c10r9},
+			{ID: "C10.R10", Floor: 3, Doc: "ring construction and replica-map maintenance: every host's tokens enter the ring whatever its state; the ring is rebuilt before the replica maps are recomputed from it; other keyspaces' maps are carried over under their own names", Run: c10r10},
 		},
 	})
 }
@@ -1768,6 +1769,7 @@ func c10r8(p *Program, r *Report) {
 			name := fi.Name + ": skipped hosts are let in when all racks are seen, counting the current rack"
 			// the guard: the innermost enclosing if whose condition compares len(<rack set>) with another length
 			var guard *ast.IfStmt
+			wrongOther := ""
 			var rackSet ast.Expr
 			var evalAt ast.Node
 			plusOne := false
@@ -1810,6 +1812,21 @@ func c10r8(p *Program, r *Report) {
 							}
 						}
 						if lc, isL := e.(*ast.CallExpr); isL && exprStr(lc.Fun) == "len" && len(lc.Args) == 1 && isRackSet(lc.Args[0]) && insertedInScope(ifs, lc.Args[0]) {
+							// the other side: the number of racks this datacenter has, i.e. the length of another rack set
+							other := b.Y
+							if side == b.Y {
+								other = b.X
+							}
+							oe := ast.Unparen(other)
+							if oc, isOC := oe.(*ast.CallExpr); !isOC || exprStr(oc.Fun) != "len" || len(oc.Args) != 1 || !isRackSet(oc.Args[0]) {
+								if id, isId := oe.(*ast.Ident); !isId || localDef(info, fi, id) == nil {
+									wrongOther = exprStr(other)
+								} else if d := localDef(info, fi, id); d != nil {
+									if dc2, isDC := ast.Unparen(d).(*ast.CallExpr); !isDC || exprStr(dc2.Fun) != "len" || len(dc2.Args) != 1 || !isRackSet(dc2.Args[0]) {
+										wrongOther = exprStr(other)
+									}
+								}
+							}
 							// the other side must be a length too (the racks the datacenter has)
 							guard, rackSet, evalAt, plusOne = ifs, lc.Args[0], at, inc
 							if at == ast.Node(ifs.Cond) {
@@ -1822,6 +1839,10 @@ func c10r8(p *Program, r *Report) {
 			}
 			if guard == nil {
 				r.Unresolved("%s: the drain of the skipped hosts at %s is not guarded by a comparison of the seen-rack count", fi.Name, p.Pos(d))
+				continue
+			}
+			if wrongOther != "" {
+				r.Bad(d, name, "the number of racks seen is compared with "+wrongOther+", which is not the number of racks of this datacenter (the length of its rack set): the skipped hosts are let in too early or never")
 				continue
 			}
 			ev := "insert:" + exprStr(rackSet)
@@ -1960,4 +1981,134 @@ func minInt(a, b int) int {
 		return a
 	}
 	return b
+}
+
+// c10r10: three structural conditions of "the replica map describes the current ring":
+//  (a) newTokenRing puts the tokens of every host it is given on the ring - a node that is down still owns its ranges
+//      (Cassandra's placement does not depend on liveness), so no host is skipped by a condition;
+//  (b) wherever a function rebuilds the ring of a clusterMeta and recomputes its replica maps, the rebuild comes first;
+//  (c) updateReplicas carries the maps of the other keyspaces over under their own names.
+func c10r10(p *Program, r *Report) {
+	if fi := r.NeedFunc("newTokenRing"); fi != nil {
+		info := fi.Pkg.TypesInfo
+		hostsParam := paramObj(info, fi.Decl.Type, 1)
+		found := false
+		ast.Inspect(fi.Decl.Body, func(x ast.Node) bool {
+			outer, ok := x.(*ast.RangeStmt)
+			if !ok || !isIdentOf(info, outer.X, hostsParam) {
+				return true
+			}
+			found = true
+			// the loop over the host's tokens is a statement of the body itself, and nothing in the body can skip it
+			direct := false
+			for _, st := range outer.Body.List {
+				if inner, isR := st.(*ast.RangeStmt); isR {
+					if c, isC := ast.Unparen(inner.X).(*ast.CallExpr); isC && strings.HasSuffix(calleeName(info, c), ".Tokens") {
+						direct = true
+					}
+					if sel, isS := ast.Unparen(inner.X).(*ast.SelectorExpr); isS && sel.Sel.Name == "tokens" {
+						direct = true
+					}
+				}
+			}
+			skips := ""
+			ast.Inspect(outer.Body, func(y ast.Node) bool {
+				if br, isB := y.(*ast.BranchStmt); isB && (br.Tok == token.CONTINUE || br.Tok == token.BREAK) {
+					inner := p.enclosing(br, fi.Decl, func(m ast.Node) bool {
+						switch m.(type) {
+						case *ast.ForStmt, *ast.RangeStmt:
+							return true
+						}
+						return false
+					})
+					if inner == ast.Node(outer) || br.Label != nil {
+						skips = p.Pos(br)
+					}
+				}
+				return true
+			})
+			r.Check(direct && skips == "", outer, "newTokenRing puts the tokens of every host on the ring", "unconditional loop over each host's tokens",
+				"newTokenRing can leave a host's tokens out of the ring"+ifs(skips != "", " (the host loop is cut short at "+skips+")", "")+": the ranges of that node are attributed to the next node on the ring, so keys are routed to a node that is not a replica - also after the node is back, because the ring is not rebuilt on up/down")
+			return true
+		})
+		if !found {
+			r.Unresolved("newTokenRing: no loop over the hosts parameter")
+		}
+	}
+	// (b) order of ring rebuild and replica recomputation
+	nb := 0
+	p.forEachFunc(false, func(fi *FuncInfo) {
+		if fi.Pkg != p.Root || fi.Decl.Body == nil {
+			return
+		}
+		info := fi.Pkg.TypesInfo
+		var resets, updates []*ast.CallExpr
+		for _, c := range callsIn(fi.Decl.Body) {
+			if isCallTo(info, c, "(*clusterMeta).resetTokenRing") {
+				resets = append(resets, c)
+			}
+			if isCallTo(info, c, "(*tokenAwareHostPolicy).updateReplicas") {
+				updates = append(updates, c)
+			}
+		}
+		if len(resets) == 0 || len(updates) == 0 {
+			return
+		}
+		g := p.GraphOf(fi)
+		ef := g.Events(func(st Step) []string {
+			if st.Kind != StNode {
+				return nil
+			}
+			for _, c := range callsIn(st.Node) {
+				if isCallTo(info, c, "(*clusterMeta).resetTokenRing") {
+					return []string{"reset"}
+				}
+			}
+			return nil
+		})
+		for _, u := range updates {
+			nb++
+			s, ok := ef.Sol.Before(p.stmtOf(u, fi))
+			r.Check(ok && s.Must["reset"], u, fi.Name+" recomputes the replica maps from the rebuilt ring", "resetTokenRing before updateReplicas",
+				"the replica maps are recomputed before the token ring was rebuilt for the changed host list: they describe the old ring (a node that just joined is no replica of its own ranges; a removed one still is)")
+		}
+	})
+	if nb == 0 {
+		r.Unresolved("no function both rebuilds the token ring and recomputes the replica maps")
+	}
+	// (c) carry-over of the other keyspaces
+	if fi := r.NeedFunc("(*tokenAwareHostPolicy).updateReplicas"); fi != nil {
+		info := fi.Pkg.TypesInfo
+		replicasField := p.Field("clusterMeta", "replicas")
+		found := false
+		ast.Inspect(fi.Decl.Body, func(x ast.Node) bool {
+			rs, ok := x.(*ast.RangeStmt)
+			if !ok || fieldOf(info, rs.X) != replicasField || rs.Key == nil || rs.Value == nil {
+				return true
+			}
+			kid, ok1 := rs.Key.(*ast.Ident)
+			vid, ok2 := rs.Value.(*ast.Ident)
+			if !ok1 || !ok2 {
+				return true
+			}
+			ast.Inspect(rs.Body, func(y ast.Node) bool {
+				as, ok := y.(*ast.AssignStmt)
+				if !ok || len(as.Lhs) != 1 || len(as.Rhs) != 1 || !isIdentOf(info, as.Rhs[0], info.Defs[vid]) {
+					return true
+				}
+				ix, ok := ast.Unparen(as.Lhs[0]).(*ast.IndexExpr)
+				if !ok {
+					return true
+				}
+				found = true
+				r.Check(isIdentOf(info, ix.Index, info.Defs[kid]), as, "updateReplicas carries each other keyspace's map over under its own name", exprStr(as.Lhs[0])+" = "+exprStr(as.Rhs[0]),
+					"the replica map of keyspace `"+kid.Name+"` is stored under `"+exprStr(ix.Index)+"`: with more than one keyspace the refreshed keyspace receives another keyspace's replicas and that keyspace's entry disappears")
+				return true
+			})
+			return true
+		})
+		if !found {
+			r.Unresolved("updateReplicas: no carry-over loop over the existing replica maps")
+		}
+	}
 }
